@@ -214,7 +214,9 @@ def v2(F, res):
         # operators that follow the `end` which closed the function body: the validator accepts them one by one (it reports
         # them from finish()), so the decoder itself must refuse to append once no control frame is left
         guard = any((re.search(r'is_empty\(.*controls', k) and v is False) or (re.search(r'len\(.*controls\) Eq 0', k) and v is False)
-                    or (re.search(r'len\(.*controls\) (Gt|Ne) 0', k) and v is True) for k, v in asm.items())
+                    or (re.search(r'len\(.*controls\) (Gt|Ne) 0', k) and v is True)
+                    or (re.search(r'^is_none\((last|first)\(.*controls', k) and v is False)
+                    or (re.search(r'^is_some\((last|first)\(.*controls', k) and v is True) for k, v in asm.items())
         if guard:
             res.ok('function-body/frame-left-before-append', {'guard': 'control stack non-empty before append_instruction'}, nontrivial=False)
         else:
